@@ -14,7 +14,8 @@ CLASSES = ("idp", "polyampholyte", "polyelectrolyte", "lowcomplexity", "hydropho
 # also residues), open reading frames, DSSP / secondary-structure strings, hexadecimal-looking words
 LOOKALIKE_ALPHABETS = ["ACGT", "ACGT", "ACG", "ACGTN", "ACGTRYKMSWDHVN", "HEC", "HEGTSC", "ACDEF", "ATGC"]
 LOOKALIKE_WORDS = ["GATTACA", "ACGT", "TGCA", "GATTACAGATTACA", "GATTACAGCTGATTACAGCTG", "ATGGAAGAAGAAGCAGGTAAAAAAAAATGA", "ATGGCCTGA",
-                   "ATGAAATAA", "ATGGCAGCATAG", "TATAAT", "CAGCAGCAGCAGCAGCAGCAGCAGCAGCAG", "HHHHHHEEEEEECCCCCC", "DEADFACE", "ACCGGTTAACCGGTTAACCGGTT"]
+                   "ATGAAATAA", "ATGGCAGCATAG", "TATAAT", "CAGCAGCAGCAGCAGCAGCAGCAGCAGCAG", "HHHHHHEEEEEECCCCCC", "DEADFACE", "ACCGGTTAACCGGTTAACCGGTT",
+                   "FASTA", "MKVLAGFASTA", "SEQFASTA", "PIR", "GCG", "CSV", "MKTPDF", "DATCSV", "READMEMD", "PNG", "SEQ", "TSV"]
 
 _WEIGHTS = {
     "idp": "DDEEEKKKRSSSGGPPQQTANH",
